@@ -150,6 +150,22 @@ def fmt_path(p):
     return ".".join(p)
 
 
+def _src_path(v):
+    """'self.field...' when the written value is a place of the packet as it is -- directly, or as the alternatives of a
+    conditional that all lie in the same field (`match self.qos_pid { Level1(p) | Level2(p) => p }`)."""
+    if isinstance(v, PathVal):
+        return fmt_path(v.path)
+    if isinstance(v, Cases):
+        ps = [_src_path(x) for _i, x in v.pairs]
+        if ps and all(p is not None for p in ps):
+            tops = {".".join(p.split(".")[:2]) for p in ps}
+            if len(tops) == 1:
+                return tops.pop()
+    if isinstance(v, tuple) and len(v) == 2 and v[0] == "some":
+        return _src_path(v[1])
+    return None
+
+
 def fmt_atom(a):
     if a[0] == "is":
         return "%s is %s" % (fmt_path(a[1]), a[2])
@@ -921,6 +937,8 @@ class Interp:
         res = fn.get("res") or d
         name = fn.get("name")
         args = e["args"]
+        if not d and e.get("fun") is not None:
+            return self.call_value(fr, e)
         # io::Write::write_all(writer, bytes): the effect
         if d in _WRITE_ALL:
             n = self.length_of(fr, args[1])
@@ -992,6 +1010,18 @@ class Interp:
                 for i, v in cases:
                     out.append((i, ("some", self.apply_fn(fr, f, [v[1]], args[1])) if v[0] == "some" else ("none",)))
                 return out[0][1] if len(out) == 1 else Cases(out)
+        if d.startswith("core::option::Option") and name in ("unwrap_or", "unwrap_or_default") and len(args) in (1, 2):
+            optv = self.eval(fr, args[0])
+            dflt = self.eval(fr, args[1]) if len(args) == 2 else Poly.const(0)
+            cases = self.opt_cases(optv) if not isinstance(optv, PathVal) else None
+            if cases is not None:
+                try:
+                    tot = Poly()
+                    for i, v in cases:
+                        tot = tot + i * as_poly(v[1] if v[0] == "some" else dflt, "unwrap_or")
+                    return tot
+                except Unsupported:
+                    pass
         if name in ("add", "sub") and tr.endswith(("ops::arith::Add", "ops::arith::Sub")) and len(args) == 2:
             a_ = as_poly(self.eval(fr, args[0]), "operand")        # `usize + &usize` and the like
             b_ = as_poly(self.eval(fr, args[1]), "operand")
@@ -1150,14 +1180,22 @@ class Interp:
                             if vv["name"] == vals[1][1]:
                                 cv = vv.get("discr")
                 src = vals[1]
-                self.trace.append(("item", name, cv, fmt_path(src.path) if isinstance(src, PathVal) else None,
-                                   pp(strip(args[1]))[:120]))
+                self.trace.append(("item", name, cv, _src_path(src), pp(strip(args[1]))[:120]))
                 return r
             return self.run_fn(res, vals)
 
     def mentions_writer(self, fr, a):
         a = strip(a)
         return a.get("k") == "Var" and a["var"]["name"] in ("writer", "buf") and "Write" in (a.get("ty") or "")
+
+    def call_value(self, fr, e):
+        """a call through a function value held in a local (`wrap(x)` where wrap is a constructor or closure picked earlier)"""
+        fv = self.eval(fr, e["fun"])
+        vals = [self.eval(fr, a) for a in e["args"]]
+        try:
+            return self.apply_fn(fr, fv, vals, e)
+        except Unsupported:
+            return Opaque("indirect call")
 
     def apply_fn(self, fr, f, vals, node=None):
         """Apply a closure value (with its captured frame) or a function item to argument values, in the current mode."""
@@ -1178,8 +1216,19 @@ class Interp:
                 return self.eval(cfr, nbody(self.F, f[1]))
             finally:
                 self.depth -= 1
+        if isinstance(f, Cases):
+            return Cases([(ind, self.apply_fn(fr, x, vals, node)) for ind, x in f.pairs])
+        if isinstance(f, tuple) and f and f[0] == "some" and len(f) == 2:
+            return self.apply_fn(fr, f[1], vals, node)
         if isinstance(f, tuple) and f and f[0] == "fnitem":
             fn = f[1]
+            d_ = fn.get("def") or ""
+            if "::" in d_:
+                adt_, var_ = d_.rsplit("::", 1)
+                a_ = self.F.adts.get(adt_)
+                if a_ is not None and any(vv["name"] == var_ for vv in a_["variants"]):
+                    # an enum / tuple-struct constructor used as a function value: `wrap(pid)` with wrap = QosPid::Level1
+                    return ("struct", adt_, var_, {str(i): v for i, v in enumerate(vals)})
             fake = {"k": "Call", "fn": fn, "args": [{"k": "__val", "v": v, "ty": None} for v in vals], "ty": fn.get("sig_out")}
             return self.e_Call(fr, fake)
         raise Unsupported("cannot apply %r" % (f,))
